@@ -39,6 +39,7 @@ def probe(sc):
             res['peer_probe'] = 'answer frames for the probe: %r' % ([(g.get('t'), g.get('sid')) for g in got],)
     oid2 = len(rec.objs)
     box = {}
+    before2 = len(rec.t.sent)
     rec.label('reqresponse', b'', b'ping')
     rec.act(lambda: box.setdefault('f', rec.ep.request_response(Payload(b'ping'))))
     rec.settle()
@@ -46,6 +47,9 @@ def probe(sc):
         res['own_probe'] = 'request_response did not register a stream'
     else:
         sid2 = rec.objs[oid2].stream_id
+        wrote = [g for g in (sim.parse_sent(b) for b in rec.t.sent[before2:]) if g.get('t') == 'RequestResponse' and g.get('sid') == sid2]
+        if not wrote:
+            res['own_probe'] = 'own request on stream %d was never written (wedged behind something the peer sent)' % sid2
         if sid2 in rec.ep._frame_fragment_cache._frames_by_stream_id:
             # the hostile peer had already sent a stray first fragment on this very id: whatever it now answers is
             # glued onto its own earlier bytes — its own mess, not a containment failure
@@ -86,7 +90,7 @@ def oracle(sc):
 
 
 def _descs(ctx, n):
-    return E.mk_descs(ctx.rng, n, hostile=0.55, garbage=0.35, with_close=False, steps=(4, 16), frag=0.2)
+    return E.mk_descs(ctx.rng, n, hostile=0.55, garbage=0.35, with_close=False, steps=(4, 16), frag=0.2, debug_log=0.3)
 
 
 def correspond(ctx, corr, model_ok):
@@ -96,6 +100,7 @@ def correspond(ctx, corr, model_ok):
     for sc in runs:
         corr.oracle_failures.extend(oracle(sc))
         corr.count('raw-byte injections', sc.raw_injected)
+        corr.count('frame logging at DEBUG', 1 if sc.desc.get('debug_log') else 0)
         corr.count('fragmented', sc.fragmented)
     corr.oracle_failures.extend(failing_responder_oracle())
     corr.count('failing library publishers / futures (factory, first step, later step)', 14)
